@@ -13,12 +13,31 @@ import (
 )
 
 func probe(ctx *common.Ctx) {
+	var jobs []job
+	if os.Getenv("VERIF_C17_PROBE") == "LOCKS" {
+		jobs = genLockProbes(0)
+		for i := range jobs {
+			jobs[i].ID = i
+		}
+		dir, _ := os.MkdirTemp("", "c17p-")
+		defer os.RemoveAll(dir)
+		for i, oc := range runJobs(selfBin(), dir, jobs, nil) {
+			if oc.Res == nil {
+				fmt.Println(lockOps[i].Name, "NO RESULT", oc.Crash)
+				continue
+			}
+			if os.Getenv("VERIF_C17_VERBOSE") != "" {
+				fmt.Println(oc.Stderr)
+			}
+			fmt.Printf("%-20s blocked=%-5v probed=%v value=%s err=%s hang=%v\n", lockOps[i].Name, oc.Res.Blocked, oc.Res.Probed, oc.Res.Value, oc.Res.Err, oc.Res.Hang)
+		}
+		return
+	}
 	f, err := os.Open(os.Getenv("VERIF_C17_PROBE"))
 	if err != nil {
 		panic(err)
 	}
 	defer f.Close()
-	var jobs []job
 	sc := bufio.NewScanner(f)
 	sc.Buffer(make([]byte, 1<<20), 1<<26)
 	for sc.Scan() {
